@@ -253,7 +253,9 @@ def _infer_dunder_all(root: ast.Module) -> Set[str] | None:
 
 
 @functools.lru_cache(maxsize=100_000)
-def trace_origin(name: str, source: str, *, __all__: bool = False) -> _TraceResult | None:
+def trace_origin(
+    name: str, source: str, *, __all__: bool = False, package: str | None = None
+) -> _TraceResult | None:
     """Trace the origin of a name in python source code.
 
     Args:
@@ -261,6 +263,8 @@ def trace_origin(name: str, source: str, *, __all__: bool = False) -> _TraceResu
         source (str): Source code to trace name in
         __all__ (bool, optional): If True, and __all__ is defined in source,
             use __all__ as a filter for importable names. Defaults to False.
+        package (str, optional): Name of the package that source is part of, if known.
+            Relative star imports in source are resolved against it.
 
     Returns:
         (source, ast, lineno) of the origin of name in source.
@@ -301,7 +305,16 @@ def trace_origin(name: str, source: str, *, __all__: bool = False) -> _TraceResu
                 if alias.name != "*":
                     continue
 
-                if node.module in constants.PYTHON_311_STDLIB:
+                module_name = node.module
+                if node.level:
+                    # Relative to the package that source is part of
+                    parents = package.split(".") if package else []
+                    parents = parents[: len(parents) - node.level + 1]
+                    if not parents:
+                        continue  # Relative to a package that is unknown here
+                    module_name = ".".join(parents + [node.module] if node.module else parents)
+
+                if module_name in constants.PYTHON_311_STDLIB and not node.level:
                     # Logic copied from _get_exports_list() in os.py from python3.12.0b2
                     module = __import__(node.module)
                     exports = getattr(
@@ -310,10 +323,10 @@ def trace_origin(name: str, source: str, *, __all__: bool = False) -> _TraceResu
                     if name in exports:
                         return _TraceResult(core.get_code(node, source), node.lineno, node)
 
-                if node.module is None:
+                if module_name is None:
                     continue
 
-                origin = _trace_module_source_file(node.module)
+                origin = _trace_module_source_file(module_name)
 
                 # This is likely the best way to truly check the __all__ of a module,
                 # but if a user has forgotten the `if __name__ == "__main__":` guard,
@@ -349,7 +362,10 @@ def trace_origin(name: str, source: str, *, __all__: bool = False) -> _TraceResu
                 ):
                     continue
 
-                if trace_origin(name, module_source, __all__=True):
+                module_package = (
+                    module_name if origin.name == "__init__.py" else module_name.rpartition(".")[0]
+                )
+                if trace_origin(name, module_source, __all__=True, package=module_package):
                     return _TraceResult(core.get_code(node, source), node.lineno, node)
 
         if isinstance(node, (ast.FunctionDef, ast.AsyncFunctionDef, ast.ClassDef)):
@@ -464,7 +480,7 @@ def fix_reimported_names(source: str) -> str:
         if node.module in constants.PYTHON_311_STDLIB:
             continue
 
-        if node.module is None:
+        if node.module is None or node.level:
             continue
 
         origin = _trace_module_source_file(node.module)
@@ -492,8 +508,23 @@ def fix_reimported_names(source: str) -> str:
 
             referenced_name = asname if asname else name
 
-            if trace_result := trace_origin(name, module_source, __all__=True):
+            module_package = node.module.rpartition(".")[0]
+            if trace_result := trace_origin(
+                name, module_source, __all__=True, package=module_package
+            ):
                 *_, module_import_node = trace_result
+                if isinstance(module_import_node, ast.ImportFrom) and module_import_node.level:
+                    # Relative to the package of the module it was found in
+                    package = node.module.split(".")[: -module_import_node.level]
+                    if not package:
+                        node_names.append(alias)
+                        continue
+                    if module_import_node.module:
+                        package.append(module_import_node.module)
+                    reimported_from = ".".join(package)
+                elif isinstance(module_import_node, ast.ImportFrom):
+                    reimported_from = module_import_node.module
+
                 if isinstance(module_import_node, ast.ImportFrom):
                     # Remove this alias from node.names
                     # Add this alias to things that should be imported from module_import_node.module
@@ -513,7 +544,7 @@ def fix_reimported_names(source: str) -> str:
                     else:
                         new_alias = ast.alias(name=original_name, asname=referenced_name)
 
-                    module_from_imports[module_import_node.module].add(new_alias)
+                    module_from_imports[reimported_from].add(new_alias)
 
                 elif isinstance(module_import_node, ast.Import):
                     # Remove this alias from node.names
